@@ -117,7 +117,7 @@ class P:
                 d -= 1
             elif k == 'op' and d == 0 and v in (',', ';', '=', '{', '}', '=>', '==', '!=', '<=', '>=', '&&', '||', '+', '-', '*', '/', '%', '|', '^', '<<', '?', '.'):
                 break
-            elif k == 'id' and v == 'where' and d == 0:
+            elif k == 'id' and v in ('where', 'for') and d == 0:
                 break
             self.i += 1
         return ' '.join(x[1] for x in self.t[start:self.i])
@@ -276,14 +276,16 @@ class P:
         self.expect('(')
         params = []
         while not self.eat(')'):
-            self.eat('&')
+            amp = self.eat('&')
             if self.peek()[0] == 'life':
                 self.i += 1
-            self.eat('mut')
+            mut = self.eat('mut')
             pn = self.ident()
             ty = None
             if self.eat(':'):
                 ty = self.type_()
+            elif pn == 'self':
+                ty = '&mut' if (amp and mut) else ('&' if amp else 'owned')
             params.append((pn, ty))
             self.eat(',')
         ret = None
